@@ -113,6 +113,7 @@ func (s *RelationshipPatternVisitor) EnterOC_RangeLiteral(ctx *parser.OC_RangeLi
 
 	// Start at the start state for the mini-parser below
 	state := stateStart
+	sawRange := false
 
 	for _, tokenLeaf := range ctx.GetChildren() {
 		switch typedTokenLeaf := tokenLeaf.(type) {
@@ -123,6 +124,7 @@ func (s *RelationshipPatternVisitor) EnterOC_RangeLiteral(ctx *parser.OC_RangeLi
 
 			case TokenTypeRange:
 				state = stateSecondIndex
+				sawRange = true
 
 			default:
 				s.ctx.AddErrors(fmt.Errorf("unexpected token in pattern range: %s", typedTokenLeaf.GetText()))
@@ -144,6 +146,13 @@ func (s *RelationshipPatternVisitor) EnterOC_RangeLiteral(ctx *parser.OC_RangeLi
 				}
 			}
 		}
+	}
+
+	// A single bound without a range token (`*2`) means exactly that many hops, which is
+	// `*2..2` and not the open ended `*2..`
+	if !sawRange && s.RelationshipPattern.Range.StartIndex != nil {
+		endIndex := *s.RelationshipPattern.Range.StartIndex
+		s.RelationshipPattern.Range.EndIndex = &endIndex
 	}
 }
 
